@@ -46,8 +46,9 @@ CIQ sub-checks (C11|ciq-<name>|<entry point>|<symptom>)
   nodes     the returned weights / shifts equal the Hale-Higham-Trefethen (method 3) rule for the *recorded* eigenvalue
             estimates [m, M], re-derived here with real-argument Jacobi functions:  poles p_q = m sc^2(u_q|k'),
             weights (2K' sqrt(m) / (pi Q)) dn/cn^2, u_q = (q-1/2)K'/Q, k'^2 = 1 - m/M;  shifts_q = -p_q - shift_offset,
-            lib weights = -w_q.  Tolerance 256 u relative (float64 evaluation + one cast).  The oracle rule itself is
-            validated on every case against sqrt on [m, M] (HarnessError otherwise).
+            lib weights = -w_q.  Tolerance (256 u + 4096 u_64) relative: one cast to the dtype plus the float64 evaluation
+            of sn/cn, cn^-2 near the quarter period (condition number <= ~Q K' <= a few hundred).  The oracle rule itself
+            is validated on every case against sqrt on [m, M] (HarnessError otherwise).
   quad      when the recorded estimates are accurate (|m - lambda_min| <= 1e-3 lambda_min, same for M) and shift_offset = 0:
             max_i | r(lambda_i) sqrt(lambda_i) - 1 | <= 16 exp(-2 pi^2 Q / (log kappa + 3)) + 256 u, r the rational function of the
             returned weights / shifts evaluated in float64 at the true eigenvalues.  (HHT Theorem 4.1 rate; constant: the
@@ -89,7 +90,7 @@ RULE = (
     "shifts, or a batch, or >= 10 iterations run, or lhs given, or any CIQ kind that ran the quadrature. Distinct by hash "
     "of the whole case."
 )
-BUDGET = {"quick": 440, "thorough": 1500}
+BUDGET = {"quick": 1200, "thorough": 2500}
 ASSUMPTIONS = [
     "minres with a preconditioner closure applying P is read as solving (value*K + s*P^{-1}) x = b (what its only caller relies on)",
     "no accuracy claim is derived from minres_tolerance (its stopping quantity is an estimate checked every 10th step); only the "
@@ -97,14 +98,14 @@ ASSUMPTIONS = [
     "quadrature accuracy is asserted only when the recorded Lanczos estimates of the extreme eigenvalues are accurate to 1e-3",
     "rhs columns are exactly zero or have norm >= 1/8 (the routine's absolute 1e-10 zero threshold is not probed)",
 ]
-TOL = {"C_FL": 8.0, "C_Q": 16.0, "EST_DELTA": 1e-3, "NODES_REL": 256.0, "LINEAR_ULPS": 4.0, "ALGEBRA": 64.0}
+TOL = {"C_FL": 8.0, "C_Q": 16.0, "EST_DELTA": 1e-3, "NODES_REL": 256.0, "NODES_F64": 4096.0, "LINEAR_ULPS": 4.0, "ALGEBRA": 64.0}
 
 U = {"f32": 2.0**-24, "f64": 2.0**-53}
 DT = {"f32": torch.float32, "f64": torch.float64}
 F64 = torch.float64
 
 # findings proposed by this module; treated as open until known_findings.json carries an entry with the same trigger
-PROPOSED_OPEN = ("f32_exact_breakdown_zero_shift", "ciq_preconditioner_active")
+PROPOSED_OPEN = ("f32_exact_breakdown_zero_shift", "ciq_preconditioner_active", "identity_lhs_operator_batch_dropped")
 
 
 def _open_triggers():
@@ -238,7 +239,7 @@ def ciq_cases(draw, tier):
         if case["Q"] is None and Q is not None:
             case["settings"]["num_contour_quadrature"] = Q
         case["offset"] = 0.0
-        if case["inverse"] and draw(st.integers(0, 4)) == 0:
+        if case["inverse"] and draw(st.booleans()):
             case["offset"] = draw(st.sampled_from([0.5, 2.0])) * case["spec"]["lmax"] / case["spec"]["kappa"]
     elif kind == "sqrtinv":
         cls = draw(st.sampled_from(["dense", "dense", "dense", "addeddiag", "addeddiag", "diag", "identity"]))
@@ -347,8 +348,12 @@ def _has_zero_shift(case):
     return bool((L.value(case["shifts"]) == 0).any())
 
 
+def _shiftcheck_applies(case):
+    return case["shifts"] is not None and case.get("pre") is None and case.get("value") is None and not case.get("no_shiftcheck")
+
+
 def _trig_breakdown(case):
-    if case.get("dt") != "f32" or not _has_zero_shift(case):
+    if case.get("dt") != "f32":
         return False
     kind = case["kind"]
     if kind == "sample" or (kind == "sqrtinv" and (case.get("lhs") is None or case["cls"] not in ("dense", "addeddiag"))):
@@ -361,7 +366,15 @@ def _trig_breakdown(case):
     if kind == "minres":
         P = _precond_matrix(case, n)
         pre = (lambda v: v.clone()) if P is None else (lambda v: P @ v)
-        return _exact_breakdown(lambda v: K @ v, rhs, pre, _loop_iters(case, n), case.get("value"))
+        it = _loop_iters(case, n)
+        if _has_zero_shift(case) and _exact_breakdown(lambda v: K @ v, rhs, pre, it, case.get("value")):
+            return True
+        if _shiftcheck_applies(case):  # sub-check (ii) re-runs the routine on K + s_i I with a zero shift
+            sh = L.materialise(case["shifts"])
+            s_i = sh[case.get("pick", 0) % sh.shape[0]] if sh.dim() >= 1 else sh
+            Ks = K + s_i.reshape(list(s_i.shape) + [1, 1]) * torch.eye(n, dtype=K.dtype)
+            return _exact_breakdown(lambda v: Ks @ v, rhs, pre, it, None)
+        return False
     if kind == "sqrtinv":
         rhs = torch.cat([rhs, L.materialise(case["lhs"]).mT], dim=-1)
     return _exact_breakdown(lambda v: K @ v, rhs, lambda v: v.clone(), min(1000, n + 1) + 2, -1.0)
@@ -375,7 +388,19 @@ def _trig_precond(case):
     return cell.get("min_preconditioning_size", 2000) <= n and cell.get("max_preconditioner_size", 15) > 0
 
 
-TRIGGERS = {"f32_exact_breakdown_zero_shift": _trig_breakdown, "ciq_preconditioner_active": _trig_precond}
+def _trig_identity(case):
+    """IdentityLinearOperator.sqrt_inv_matmul(rhs, lhs): the operator's batch shape is not covered by the operands' batch."""
+    if case.get("kind") != "sqrtinv" or case.get("cls") != "identity" or case.get("lhs") is None:
+        return False
+    rb = tuple(L.shape_of(case["rhs"])[:-2])
+    return _bshape(tuple(case["batch"]), rb) != rb
+
+
+TRIGGERS = {
+    "f32_exact_breakdown_zero_shift": _trig_breakdown,
+    "ciq_preconditioner_active": _trig_precond,
+    "identity_lhs_operator_batch_dropped": _trig_identity,
+}
 
 
 def _retype(l, dt):
@@ -392,6 +417,9 @@ def _avoid_known(case):
         case["settings"].pop("min_preconditioning_size", None)
         case["settings"].pop("max_preconditioner_size", None)
         avoided.append("ciq_preconditioner_active")
+    if "identity_lhs_operator_batch_dropped" in open_t and _trig_identity(case):
+        case["batch"] = list(L.shape_of(case["rhs"])[:-2])
+        avoided.append("identity_lhs_operator_batch_dropped")
     if "f32_exact_breakdown_zero_shift" in open_t and _trig_breakdown(case):
         if case["kind"] == "minres":
             bump = (-1.0 if case.get("value") is not None else 1.0) * 0.125 * case["spec"]["lmax"]
@@ -400,6 +428,8 @@ def _avoid_known(case):
             else:
                 v = L.value(case["shifts"])
                 case["shifts"] = L.lit(torch.where(v == 0, torch.full_like(v, bump), v).tolist(), "f32")
+            if _trig_breakdown(case):
+                case["no_shiftcheck"] = True
         else:
             case["dt"] = "f64"
             _retype(case.get("rhs"), "f64")
@@ -440,3 +470,684 @@ def _counting(mat, cnt):
         return mat @ v
 
     return mm
+
+
+# ------------------------------------------------------------------------------------------------------------------
+# MINRES
+# ------------------------------------------------------------------------------------------------------------------
+def _spectrum_info(M, P64):
+    """kappa of the (preconditioned) system matrices M (.., n, n), smallest |eigenvalue| of M itself, cond(P)."""
+    ev = torch.linalg.eigvalsh(0.5 * (M + M.mT))
+    lam_min = ev.abs().min(dim=-1)[0]
+    if P64 is None:
+        evp, kp = ev, 1.0
+    else:
+        Lc = torch.linalg.cholesky(P64)
+        At = Lc.mT @ M @ Lc
+        evp = torch.linalg.eigvalsh(0.5 * (At + At.mT))
+        pe = torch.linalg.eigvalsh(P64)
+        kp = float(pe.max() / pe.min())
+    a = evp.abs()
+    if not bool(((evp > 0).all(dim=-1) | (evp < 0).all(dim=-1)).all()) or float(a.min()) <= 0:
+        raise HarnessError("generated system is not definite")
+    return a.max(dim=-1)[0] / a.min(dim=-1)[0], lam_min, kp
+
+
+def _bound_tensor(kappa, j, u, kp):
+    return torch.tensor([_res_bound(float(k), j, u, kp) for k in kappa.reshape(-1)], dtype=F64).reshape(kappa.shape)
+
+
+def _check_minres(case):
+    from linear_operator.utils import minres
+
+    dtn = case["dt"]
+    dt, u = DT[dtn], U[dtn]
+    K = _dense_K(case)
+    n = K.shape[-1]
+    rhs = L.materialise(case["rhs"])
+    shifts = None if case["shifts"] is None else L.materialise(case["shifts"])
+    value = case.get("value")
+    P = _precond_matrix(case, n)
+    cell, max_iter = case.get("settings", {}), case.get("max_iter")
+    vector = rhs.dim() == 1
+
+    def run(mat, rhs_t, sh, pre=True):
+        cnt = [0]
+        kw = {}
+        if P is not None and pre:
+            kw["preconditioner"] = lambda v: P @ v
+        with state.apply_settings(cell):
+            out = minres(_counting(mat, cnt), rhs_t.clone(), shifts=None if sh is None else sh.clone(), value=value, max_iter=max_iter, **kw)
+        return out, cnt[0] - 1
+
+    def attempt(name, *a, **k):
+        try:
+            return run(*a, **k)
+        except Exception as e:
+            _fail("minres-" + name, "minres", "exc:" + X.describe(e), "minres raised %r" % (e,))
+
+    x, j = attempt("run", K, rhs, shifts)
+
+    # ---- (v) shape / dtype
+    b64 = rhs.double().unsqueeze(-1) if vector else rhs.double()
+    t = b64.shape[-1]
+    pbatch = _bshape(K.shape[:-2], b64.shape[:-2])
+    numel = 1 if shifts is None else shifts.numel()
+    lead = (shifts.shape[0],) if numel > 1 else ()
+    want = lead + pbatch + ((n,) if vector else (n, t))
+    if not torch.is_tensor(x) or tuple(x.shape) != want:
+        _fail("minres-shape", "minres", "shape", "result shape %s, expected %s (shifts %s, rhs %s, K %s)" % (
+            tuple(getattr(x, "shape", ())), want, None if shifts is None else tuple(shifts.shape), tuple(rhs.shape), tuple(K.shape)))
+    if x.dtype != dt:
+        _fail("minres-shape", "minres", "dtype", "result dtype %s for %s inputs" % (x.dtype, dt))
+    X64 = x.double()
+    if vector:
+        X64 = X64.unsqueeze(-1)
+    if not lead:
+        X64 = X64.unsqueeze(0)
+
+    # ---- reference systems
+    K64 = K.double()
+    P64 = None if P is None else P.double()
+    if shifts is None:
+        S = torch.zeros((1,) * (len(pbatch) + 3), dtype=F64)
+    else:
+        S = shifts.double()
+        S = S.reshape(list(S.shape) + [1] * (len(pbatch) + 3 - S.dim()))
+    Pinv = torch.eye(n, dtype=F64) if P64 is None else torch.linalg.inv(P64)
+    M = (K64 if value is None else value * K64) + S * Pinv
+    kappa, lam_min, kp = _spectrum_info(M, P64)
+    bnorm = b64.norm(dim=-2)
+    zero = bnorm == 0
+    zero_full = zero.expand(X64.shape[:-2] + (t,)) if zero.dim() else zero
+    colnorm = X64.abs().amax(dim=-2)
+
+    # ---- finite / (iii) zero
+    bad = ~torch.isfinite(X64).all(dim=-2)
+    if bool((bad & ~zero_full).any()):
+        _fail("minres-finite", "minres", "nan", "non-finite solution for a non-zero rhs column (n=%d, %s, j=%d, shifts=%s)" % (
+            n, dtn, j, None if shifts is None else shifts.tolist()))
+    if bool((zero_full & (bad | (colnorm != 0))).any()):
+        _fail("minres-zero", "minres", "nan" if bool((zero_full & bad).any()) else "value", "zero rhs column does not give a zero solution column")
+
+    # ---- (i) residual
+    R = b64 - M @ X64
+    rel = R.norm(dim=-2) / torch.where(zero, torch.ones_like(bnorm), bnorm)
+    B = _bound_tensor(kappa, j, u, kp)
+    ratio = torch.where(zero_full, torch.zeros_like(rel), rel / B.unsqueeze(-1))
+    if float(ratio.max()) > 1.0:
+        i = int(torch.argmax(ratio.reshape(-1)))
+        _fail("minres-residual", "minres", "value", "relative residual %.3g > bound %.3g (kappa=%.3g, j=%d, n=%d, %s, cond(P)=%.3g)" % (
+            float(rel.reshape(-1)[i]), float(rel.reshape(-1)[i] / ratio.reshape(-1)[i]), float(kappa.max()), j, n, dtn, kp))
+
+    # ---- (ii) shift invariance
+    labels = []
+    if _shiftcheck_applies(case):
+        i = case.get("pick", 0) % X64.shape[0]
+        s_i = shifts[i] if shifts.dim() >= 1 else shifts
+        Ks = K + s_i.reshape(list(s_i.shape) + [1, 1]) * torch.eye(n, dtype=dt)
+        xb, jb = attempt("shift", Ks, rhs, None)
+        XB = xb.double().unsqueeze(-1) if vector else xb.double()
+        if XB.shape != X64.shape[1:]:
+            _fail("minres-shift", "minres", "shape", "shift-0 solve of K+sI has shape %s, shifted solve %s" % (tuple(XB.shape), tuple(X64.shape[1:])))
+        Bb = _bound_tensor(kappa[i], jb, u, 1.0)
+        tol_ii = (B[i] + Bb + 8 * u * kappa[i]).unsqueeze(-1) * bnorm / lam_min[i].unsqueeze(-1)
+        if bool((~torch.isfinite(XB).all(dim=-2) & ~zero).any()):
+            _fail("minres-finite", "minres", "nan", "non-finite shift-0 solve of K+sI for a non-zero rhs column (n=%d, %s, j=%d)" % (n, dtn, jb))
+        diff = (X64[i] - XB).norm(dim=-2)
+        exceed = (diff > tol_ii) & ~zero
+        if bool(exceed.any()):
+            _fail("minres-shift", "minres", "value", "solve with shift %s differs from the shift-0 solve of K+sI by %.3g > %.3g (j=%d / %d)" % (
+                s_i.tolist(), float(diff.max()), float(tol_ii.min()), j, jb))
+        labels.append("shiftcheck:same_j" if jb == j else "shiftcheck:diff_j")
+
+    # ---- (iv) scaling
+    c = torch.tensor(case["scale"][:t], dtype=dt)
+    xc, jc = attempt("linear", K, rhs * (c[0] if vector else c), shifts)
+    expect = x * (c[0] if vector else c)
+    if xc.shape != expect.shape or jc != j:
+        _fail("minres-linear", "minres", "shape", "scaled rhs: shape %s vs %s, iterations %d vs %d" % (tuple(xc.shape), tuple(expect.shape), jc, j))
+    d = (xc.double() - expect.double()).abs()
+    lim = TOL["LINEAR_ULPS"] * u * expect.double().abs()
+    if not bool((torch.isfinite(xc) | ~torch.isfinite(expect)).all()) or bool((d > lim)[torch.isfinite(expect)].any()):
+        _fail("minres-linear", "minres", "value", "x(b*c) != x(b)*c for c=%s: max abs deviation %.3g" % (c.tolist(), float(d[torch.isfinite(d)].max()) if d.numel() else 0.0))
+
+    cap = _loop_iters(case, n)
+    weak = float(B.min()) >= 0.5
+    sk = "none" if shifts is None else ("scalar" if shifts.dim() == 0 else ("vec%d" % shifts.shape[0] if shifts.dim() == 1 else "batched%d" % shifts.shape[0]))
+    labels += [
+        "kind:minres", "dtype:" + dtn, "n:%s" % _nb(n), "kappa:%g" % case["spec"]["kappa"], "batch:%d" % len(pbatch), "shifts:" + sk,
+        "pre:" + ("none" if P is None else ("diag" if "diag" in case["pre"] else "spd")), "value:%s" % value,
+        "iters:%s" % ("<10" if j < 10 else ("10-19" if j < 20 else ">=20")), "stop:" + ("cap" if j >= cap else "converged"),
+        "rhs:" + ("vector" if vector else "cols%d" % t), "zero_col:%s" % bool(zero.any()), "residual_bound:" + ("weak" if weak else "strong"),
+    ]
+    if numel == 1 and shifts is not None and shifts.dim() >= 1:
+        labels.append("shifts:single_element_tensor")
+    return {"nontrivial": numel >= 2 or len(pbatch) > 0 or j >= 10, "labels": labels}
+
+
+def _nb(n):
+    return "1" if n == 1 else ("2-4" if n <= 4 else ("5-10" if n <= 10 else ("11-20" if n <= 20 else "21-40")))
+
+
+# ------------------------------------------------------------------------------------------------------------------
+# contour-integral quadrature: spy, oracle rule, analysis of one recorded call
+# ------------------------------------------------------------------------------------------------------------------
+def _mods():
+    import linear_operator.utils as lu
+
+    return lu, importlib.import_module("linear_operator.utils.contour_integral_quad")
+
+
+def _clone(o):
+    return o.detach().clone() if torch.is_tensor(o) else o
+
+
+@contextlib.contextmanager
+def _spy(randn=False):
+    """Record every contour_integral_quad call (arguments, outputs), the Lanczos eigenvalue estimates it computed
+    (torch.linalg.eigvalsh), its inner minres call (rhs, shifts, result, iterations) and optionally torch.randn draws."""
+    lu, cm = _mods()
+    real_ciq, real_minres, real_eig, real_randn = cm.contour_integral_quad, cm.minres, torch.linalg.eigvalsh, torch.randn
+    sig = inspect.signature(real_ciq)
+    rec = {"calls": [], "randn": []}
+    stack = []
+
+    def ciq(*a, **k):
+        ba = sig.bind(*a, **k)
+        ba.apply_defaults()
+        ent = {"args": dict(ba.arguments), "depth": len(stack), "eigs": None, "minres": None, "nested": 0, "rhs_in": _clone(ba.arguments["rhs"])}
+        if stack:
+            stack[-1]["nested"] += 1
+        stack.append(ent)
+        try:
+            out = real_ciq(*a, **k)
+        finally:
+            stack.pop()
+        ent["out"] = tuple(_clone(o) for o in out)
+        rec["calls"].append(ent)
+        return out
+
+    def mres(closure, rhs, *a, **k):
+        cnt = [0]
+
+        def mm(v):
+            cnt[0] += 1
+            return closure(v)
+
+        out = real_minres(mm, rhs, *a, **k)
+        if stack:
+            stack[-1]["minres"] = {"j": cnt[0] - 1, "rhs": _clone(rhs), "kw": {kk: _clone(vv) for kk, vv in k.items()}, "out": _clone(out)}
+        return out
+
+    def eig(x, *a, **k):
+        out = real_eig(x, *a, **k)
+        if stack and stack[-1]["eigs"] is None:
+            stack[-1]["eigs"] = _clone(out)
+        return out
+
+    def rn(*a, **k):
+        out = real_randn(*a, **k)
+        rec["randn"].append(out.clone())
+        return out
+
+    with contextlib.ExitStack() as es:
+        es.enter_context(mock.patch.object(cm, "contour_integral_quad", ciq))
+        es.enter_context(mock.patch.object(lu, "contour_integral_quad", ciq))
+        es.enter_context(mock.patch.object(cm, "minres", mres))
+        es.enter_context(mock.patch.object(torch.linalg, "eigvalsh", eig))
+        if randn:
+            es.enter_context(mock.patch.object(torch, "randn", rn))
+        yield rec
+
+
+def _hht_rule(m, k2, Q):
+    """Hale-Higham-Trefethen method 3 for A^{-1/2} on [m, M], k2 = m/M:  A^{-1/2} ~ sum_q wts_q (A + poles_q I)^{-1}."""
+    import numpy as np
+    from scipy.special import ellipj, ellipk
+
+    kc2 = 1.0 - k2  # squared complementary modulus
+    Kp = float(ellipk(kc2))
+    uq = (np.arange(1, Q + 1) - 0.5) * Kp / Q
+    sn, cn, dn, _ = ellipj(uq, kc2)
+    poles = m * (sn / cn) ** 2
+    wts = (2.0 * Kp * math.sqrt(m) / (math.pi * Q)) * dn / cn**2
+    return torch.tensor(poles, dtype=F64), torch.tensor(wts, dtype=F64)
+
+
+def _hht_rate(kappa, Q):
+    return math.exp(-2.0 * math.pi**2 * Q / (math.log(max(kappa, 1.0)) + 3.0))
+
+
+def _validate_rule(m, M, Q, poles, wts):
+    lam = torch.exp(torch.linspace(math.log(m), math.log(M), 65, dtype=F64))
+    err = float(((wts / (lam.unsqueeze(-1) + poles)).sum(-1) * lam.sqrt() - 1).abs().max())
+    if not err <= 8.0 * _hht_rate(M / m, Q) + 1e-12:
+        raise HarnessError("oracle quadrature rule fails its own validation: err %.3g on [%g, %g], Q=%d" % (err, m, M, Q))
+
+
+def _analyse(ent, Kdt, ew, u, dtn, where, noshift_observable):
+    """Sub-checks solves / nodes / quad on one recorded top-level call. Returns per-call error bounds for `root`.
+    Kdt: dense matrix of the operator in its dtype (*kb, n, n); ew: float64 eigenvalues of it (*kb, n), ascending."""
+    solves, weights, nss, shifts = ent["out"]
+    inverse = bool(ent["args"]["inverse"])
+    off = float(ent["args"]["shift_offset"])
+    n = Kdt.shape[-1]
+    K64 = Kdt.double()
+    b = ent["rhs_in"].double()
+    t = b.shape[-1]
+    kb = tuple(Kdt.shape[:-2])
+    ob = _bshape(kb, b.shape[:-2])
+    Q = weights.shape[0]
+    labels = ["Q:%d" % Q]
+    want = {"solves": (Q,) + ob + (n, t), "weights": (Q,) + ob + (1, 1), "no_shift_solves": ob + (n, t), "shifts": (Q + 1,) + ob}
+    got = {"solves": tuple(solves.shape), "weights": tuple(weights.shape), "no_shift_solves": tuple(nss.shape), "shifts": tuple(shifts.shape)}
+    if got != want:
+        _fail("ciq-shape", where, "shape", "contour_integral_quad outputs %r, expected %r" % (got, want))
+    if not bool(torch.isfinite(weights).all() and torch.isfinite(shifts).all()):
+        _fail("ciq-finite", where, "nan", "non-finite quadrature weights / shifts (n=%d, %s)" % (n, dtn))
+    lam_min, lam_max = ew[..., 0], ew[..., -1]
+    kappa = lam_max / lam_min
+    sh = shifts.double()  # (Q+1, *ob)
+    w = weights.double().reshape((Q,) + ob)
+    ewb = ew.expand(ob + (n,)) if ew.dim() - 1 <= len(ob) else ew
+    ev = sh.unsqueeze(-1) - ewb  # eigenvalues of -K + shift_q I
+    if not bool((ev < 0).all()):
+        _fail("ciq-nodes", where, "value", "a returned shift is not below the spectrum: max(shift - lambda_min) = %.3g" % float(ev.max()))
+    kq = ev.abs().amax(-1) / ev.abs().amin(-1)  # (Q+1, *ob)
+    lq = ev.abs().amin(-1)
+    precond = ent["nested"] > 0 or (ent["minres"] is not None and ent["minres"]["kw"].get("preconditioner") is not None)
+    bnorm = b.norm(dim=-2)  # (*rb, t)
+    zero = bnorm == 0
+    j = ent["minres"]["j"] if ent["minres"] is not None else 0
+    Bq = _bound_tensor(kq, j, u, 1.0)  # (Q+1, *ob)
+
+    # ---- solves: the inner MINRES call
+    if ent["minres"] is not None and not precond:
+        Xm = ent["minres"]["out"].double()  # (Q+1, *ob, n, t)
+        bm = ent["minres"]["rhs"].double()
+        fin = torch.isfinite(Xm).all(dim=-2)  # (Q+1, *ob, t)
+        zf = zero.expand(fin.shape[1:])
+        badq = ~fin & ~zf
+        if not noshift_observable:
+            badq[0] = False
+        if bool(badq.any()):
+            q = int(torch.nonzero(badq.reshape(Q + 1, -1).any(-1))[0])
+            _fail("ciq-finite", where, "nan", "non-finite %s for a non-zero rhs column (n=%d, %s, j=%d)" % (
+                "unshifted solve" if q == 0 else "solve at quadrature node %d" % q, n, dtn, j))
+        Xs = torch.where(torch.isfinite(Xm), Xm, torch.zeros_like(Xm))
+        R = bm + K64 @ Xs - sh.reshape(sh.shape + (1, 1)) * Xs
+        rel = R.norm(dim=-2) / torch.where(zero, torch.ones_like(bnorm), bnorm)
+        ratio = torch.where(zf.expand(rel.shape) | ~fin, torch.zeros_like(rel), rel / Bq.unsqueeze(-1))
+        if float(ratio.max()) > 1.0:
+            i = int(torch.argmax(ratio.reshape(-1)))
+            _fail("ciq-solves", where, "value", "shifted solve residual %.3g > bound %.3g (j=%d, n=%d, kappa=%.3g, %s)" % (
+                float(rel.reshape(-1)[i]), float((rel / ratio).reshape(-1)[i]), j, n, float(kappa.max()), dtn))
+        zsol = zf.expand(fin.shape) & ((Xs.abs().amax(dim=-2) != 0) | ~fin)
+        if bool(zsol.any()):
+            _fail("ciq-solves", where, "value", "zero rhs column with a non-zero / non-finite shifted solve")
+        labels.append("iters:%s" % ("<10" if j < 10 else ("10-19" if j < 20 else ">=20")))
+    else:
+        labels.append("solves:skipped_precond" if precond else "solves:not_recorded")
+
+    # ---- nodes: weights / shifts versus the HHT rule for the recorded estimates
+    est_ok = None
+    eps_orc = None
+    if ent["eigs"] is not None and ent["args"]["shifts"] is None:
+        ae = ent["eigs"]
+        if float(ae.min()) <= 0:
+            ae = Kdt.diagonal(dim1=-1, dim2=-2)
+            labels.append("est:diag_fallback")
+        mn, mx = ae.min(dim=-1)[0], ae.max(dim=-1)[0]
+        k2 = (mn / mx).reshape(-1).tolist()
+        mnl = mn.reshape(-1).tolist()
+        P_, W_ = [], []
+        for k2_i, m_i in zip(k2, mnl):
+            p_i, w_i = _hht_rule(m_i, k2_i, Q)
+            _validate_rule(m_i, m_i / k2_i, Q, p_i, w_i)
+            P_.append(p_i)
+            W_.append(w_i)
+        poles = torch.stack(P_, -1).reshape((Q,) + tuple(mn.shape))  # (Q, *kb)
+        wts = torch.stack(W_, -1).reshape((Q,) + tuple(mn.shape))
+        exp_sh = torch.cat([torch.zeros((1,) + tuple(mn.shape), dtype=F64), -poles], 0) - off
+        if tuple(mn.shape) == kb:
+            pad = (1,) * (len(ob) - len(kb))
+            exp_sh = exp_sh.reshape((Q + 1,) + pad + kb)
+            poles, wts = poles.reshape((Q,) + pad + kb), wts.reshape((Q,) + pad + kb)
+            exp_sh_b, exp_w_b = exp_sh.expand((Q + 1,) + ob), (-wts).expand((Q,) + ob)
+            tolr = TOL["NODES_REL"] * u + TOL["NODES_F64"] * U["f64"]
+            if bool(((sh - exp_sh_b).abs() > tolr * exp_sh_b.abs() + 1e-300).any()) or bool(((w - exp_w_b).abs() > tolr * exp_w_b.abs()).any()):
+                dev_s = float(((sh - exp_sh_b).abs() / (exp_sh_b.abs() + 1e-300)).max())
+                dev_w = float(((w - exp_w_b).abs() / exp_w_b.abs()).max())
+                _fail("ciq-nodes", where, "value", "weights / shifts differ from the HHT rule for the recorded estimates: rel dev shifts %.3g, weights %.3g (Q=%d, offset=%g)" % (dev_s, dev_w, Q, off))
+            d = TOL["EST_DELTA"]
+            est_ok = (((mn.double() - lam_min).abs() <= d * lam_min) & ((mx.double() - lam_max).abs() <= d * lam_max)).expand(ob)
+            pts = ewb + off
+            eps_orc = ((wts.expand((Q,) + ob).unsqueeze(-1) / (pts.unsqueeze(0) + poles.expand((Q,) + ob).unsqueeze(-1))).sum(0) * pts.sqrt() - 1).abs().amax(-1)
+    # ---- quad: accuracy of the rational function actually returned
+    pts = ewb + off
+    r = (w.unsqueeze(-1) / (sh[1:].unsqueeze(-1) - ewb.unsqueeze(0))).sum(0)  # (*ob, n)
+    eps_r = (r * pts.sqrt() - 1).abs().amax(-1)  # (*ob)
+    if est_ok is not None and not precond:
+        if off == 0:
+            tolq = torch.tensor([TOL["C_Q"] * _hht_rate(float(k), Q) for k in kappa.reshape(-1)], dtype=F64).reshape(kappa.shape).expand(ob) + TOL["NODES_REL"] * u
+        else:
+            tolq = 4.0 * eps_orc + TOL["NODES_REL"] * u
+        viol = est_ok & (eps_r > tolq)
+        if bool(viol.any()):
+            _fail("ciq-quad", where, "value", "quadrature error max_i |r(l_i) sqrt(l_i) - 1| = %.3g > %.3g (Q=%d, kappa=%.3g, offset=%g, estimates accurate)" % (
+                float(eps_r[viol].max()), float(tolq[viol].min()), Q, float(kappa.max()), off))
+        labels.append("est:accurate" if bool(est_ok.all()) else "est:inexact")
+    elif est_ok is None:
+        labels.append("est:not_recorded")
+    # ---- bounds for the end-to-end comparison, per output batch member: error <= ||b_col|| * eta
+    wabs = w.abs()
+    if inverse:
+        eta = (wabs * Bq[1:] / lq[1:]).sum(0) + eps_r / (lam_min + off).expand(ob).sqrt()
+    else:
+        eta = (wabs * Bq[1:]).sum(0) + eps_r * lam_max.expand(ob).sqrt()
+    eta0 = Bq[0] / lq[0]  # unshifted solve: ||x - x*|| <= eta0 ||b||
+    return {"eta": eta, "eta0": eta0, "labels": labels, "ob": ob, "eps_r": eps_r, "precond": precond, "Q": Q}
+
+
+# ------------------------------------------------------------------------------------------------------------------
+# CIQ kinds
+# ------------------------------------------------------------------------------------------------------------------
+def _eig(K64):
+    ew, eV = torch.linalg.eigh(0.5 * (K64 + K64.mT))
+    if float(ew.min()) <= 0:
+        raise HarnessError("generated operator is not positive definite")
+    return ew, eV
+
+
+def _fpow(ew, eV, p, shift=0.0):
+    return (eV * (ew + shift).pow(p).unsqueeze(-2)) @ eV.mT
+
+
+def _top(rec):
+    return [e for e in rec["calls"] if e["depth"] == 0]
+
+
+def _cmp_cols(check, where, lib, ref, tol, what):
+    """lib, ref (.., n, t) float64; tol (.., t) bound on the column 2-norm of the difference."""
+    if tuple(lib.shape) != tuple(ref.shape):
+        _fail("ciq-shape", where, "shape", "%s has shape %s, expected %s" % (what, tuple(lib.shape), tuple(ref.shape)))
+    fin = torch.isfinite(lib).all(dim=-2)
+    if not bool(fin.all()):
+        _fail("ciq-finite", where, "nan", "%s is not finite" % what)
+    d = (lib - ref).norm(dim=-2)
+    if bool((d > tol).any()):
+        i = int(torch.argmax((d / (tol + 1e-300)).reshape(-1)))
+        _fail(check, where, "value", "%s: column error %.3g > tolerance %.3g (column norm of the reference %.3g)" % (
+            what, float(d.reshape(-1)[i]), float(tol.expand(d.shape).reshape(-1)[i]), float(ref.norm(dim=-2).expand(d.shape).reshape(-1)[i])))
+
+
+def _common_labels(case, n, kb, extra):
+    return ["kind:" + case["kind"], "dtype:" + case["dt"], "n:%s" % _nb(n), "batch:%d" % len(kb)] + list(extra) + ["avoided:" + a for a in case.get("avoided", [])]
+
+
+def _check_ciq(case):
+    from linear_operator.operators import DenseLinearOperator
+
+    lu, _ = _mods()
+    dtn = case["dt"]
+    u = U[dtn]
+    Kdt = _dense_K(case)
+    n = Kdt.shape[-1]
+    rhs = L.materialise(case["rhs"])
+    inverse, off = bool(case["inverse"]), float(case.get("offset", 0.0))
+    where = "contour_integral_quad"
+    with state.apply_settings(case.get("settings", {})), _spy() as rec:
+        try:
+            lu.contour_integral_quad(DenseLinearOperator(Kdt), rhs.clone(), inverse=inverse, num_contour_quadrature=case.get("Q"), shift_offset=off)
+        except Exception as e:
+            _fail("ciq-run", where, "exc:" + X.describe(e), "contour_integral_quad raised %r" % (e,))
+    ent = _top(rec)[0]
+    want_q = case.get("Q") or case.get("settings", {}).get("num_contour_quadrature", 15)
+    ew, eV = _eig(Kdt.double())
+    info = _analyse(ent, Kdt, ew, u, dtn, where, True)
+    if info["Q"] != want_q:
+        _fail("ciq-shape", where, "shape", "%d quadrature nodes used, %d requested" % (info["Q"], want_q))
+    solves, weights, nss, shifts = (o.double() for o in ent["out"])
+    b = rhs.double()
+    bn = b.norm(dim=-2)
+    rnd = TOL["ALGEBRA"] * (n + info["Q"]) * u
+    ref = _fpow(ew, eV, -0.5 if inverse else 0.5, off if inverse else 0.0) @ b
+    _cmp_cols("ciq-root", where, (solves * weights).sum(0), ref.expand(info["ob"] + ref.shape[-2:]), bn * info["eta"].unsqueeze(-1) + rnd * ref.norm(dim=-2),
+              "sum_q w_q solves_q vs K^%s b" % ("-1/2" if inverse else "1/2"))
+    ref0 = -(_fpow(ew, eV, -1.0, off) @ b)
+    _cmp_cols("ciq-root", where, nss, ref0.expand(info["ob"] + ref0.shape[-2:]), bn * info["eta0"].unsqueeze(-1) + rnd * ref0.norm(dim=-2), "no_shift_solves vs -(K+offset)^-1 b")
+    weak = float(info["eta"].max()) * math.sqrt(float(ew.max())) > 1e-2 if inverse else float(info["eta"].max()) > 1e-2 * math.sqrt(float(ew.max()))
+    labels = _common_labels(case, n, Kdt.shape[:-2], info["labels"] + [
+        "inverse:%s" % inverse, "offset:%s" % (off != 0), "kappa:%g" % case["spec"]["kappa"], "root_bound:" + ("weak" if weak else "strong"),
+        "zero_col:%s" % bool((bn == 0).any())])
+    return {"nontrivial": True, "labels": labels}
+
+
+def _build_op(case):
+    """-> (operator, dense matrix in the operator dtype, uses_quadrature)"""
+    from linear_operator.operators import AddedDiagLinearOperator, DenseLinearOperator, DiagLinearOperator, IdentityLinearOperator
+
+    dt = DT[case["dt"]]
+    cls = case["cls"]
+    if cls == "dense":
+        K = _dense_K(case)
+        return DenseLinearOperator(K), K, True
+    if cls == "addeddiag":
+        K0 = _dense_K(case)
+        d = torch.tensor(case["diag"], dtype=dt).expand(K0.shape[:-1]).contiguous()
+        return AddedDiagLinearOperator(DenseLinearOperator(K0), DiagLinearOperator(d)), K0 + torch.diag_embed(d), True
+    if cls == "diag":
+        d = torch.tensor(case["diag"], dtype=dt)
+        return DiagLinearOperator(d), torch.diag_embed(d), False
+    n, kb = case["n"], tuple(case["batch"])
+    return IdentityLinearOperator(n, batch_shape=torch.Size(kb), dtype=dt), torch.eye(n, dtype=dt).expand(kb + (n, n)).contiguous(), False
+
+
+def _check_sqrtinv(case):
+    import linear_operator
+
+    dtn = case["dt"]
+    dt, u = DT[dtn], U[dtn]
+    op, Kdt, quad = _build_op(case)
+    n = Kdt.shape[-1]
+    kb = tuple(Kdt.shape[:-2])
+    rhs = L.materialise(case["rhs"])
+    lhs = None if case.get("lhs") is None else L.materialise(case["lhs"])
+    vector = rhs.dim() == 1
+    where = "sqrt_inv_matmul:%s" % case["cls"]
+
+    def call(r, l):
+        if case.get("via") == "function":
+            return linear_operator.sqrt_inv_matmul(op, r) if l is None else linear_operator.sqrt_inv_matmul(op, r, l)
+        return op.sqrt_inv_matmul(r) if l is None else op.sqrt_inv_matmul(r, l)
+
+    second = None
+    with state.apply_settings(case.get("settings", {})), _spy() as rec:
+        try:
+            first = call(rhs.clone(), None if lhs is None else lhs.clone())
+            if case.get("twice"):
+                second = call(first, None)
+        except Exception as e:
+            _fail("ciq-run", where, "exc:" + X.describe(e), "sqrt_inv_matmul raised %r" % (e,))
+    ew, eV = _eig(Kdt.double())
+    lam_min = ew[..., 0]
+    R64 = rhs.double().unsqueeze(-1) if vector else rhs.double()
+    p = R64.shape[-1]
+    ob = _bshape(kb, R64.shape[:-2])
+    Rn = R64.norm(dim=-2)
+    Sinv = _fpow(ew, eV, -0.5)
+    root_ref = (Sinv @ R64).expand(ob + (n, p))
+    labels = ["cls:" + case["cls"], "lhs:%s" % (lhs is not None), "twice:%s" % bool(case.get("twice")), "via:" + str(case.get("via")),
+              "rhs:" + ("vector" if vector else "cols%d" % p), "zero_col:%s" % bool((Rn == 0).any())]
+    if "spec" in case:
+        labels.append("kappa:%g" % case["spec"]["kappa"])
+
+    def shaped(x, want, what):
+        if not torch.is_tensor(x) or tuple(x.shape) != tuple(want):
+            _fail("ciq-shape", where, "shape", "%s has shape %s, expected %s" % (what, tuple(getattr(x, "shape", ())), tuple(want)))
+        if x.dtype != dt:
+            _fail("ciq-shape", where, "dtype", "%s has dtype %s, operator %s" % (what, x.dtype, dt))
+        return x.double()
+
+    if lhs is None:
+        res = shaped(first, ob + ((n,) if vector else (n, p)), "A^{-1/2} R")
+        res = res.unsqueeze(-1) if vector else res
+        invq = None
+    else:
+        if not isinstance(first, tuple) or len(first) != 2:
+            _fail("ciq-shape", where, "type", "left-factor variant returned %s, not a pair" % type(first).__name__)
+        o = lhs.shape[-2]
+        L64 = lhs.double()
+        res = shaped(first[0], ob + (o, p), "L A^{-1/2} R")
+        invq = shaped(first[1], ob + (o,), "diag(L A^{-1} L^T)")
+    calls = _top(rec)
+    if quad and len(calls) != (2 if case.get("twice") else 1):
+        raise HarnessError("expected %d recorded quadrature calls, saw %d" % (2 if case.get("twice") else 1, len(calls)))
+    labels.append("path:quadrature" if calls else "path:override")
+
+    if not calls:
+        # overriding classes: no quadrature, exact structure
+        c = TOL["ALGEBRA"] * n * u
+        if lhs is None:
+            S = Sinv.abs() @ R64.abs()
+            ok = (res - root_ref).abs() <= c * S.expand(root_ref.shape) + 1e-300
+            if not bool(ok.all()):
+                _fail("ciq-root", where, "value", "A^{-1/2} R off by %.3g (override class)" % float((res - root_ref).abs().max()))
+            if second is not None:
+                r2 = shaped(second, tuple(first.shape), "A^{-1/2} A^{-1/2} R")
+                r2 = r2.unsqueeze(-1) if vector else r2
+                ref2 = (_fpow(ew, eV, -1.0) @ R64).expand(r2.shape)
+                S2 = _fpow(ew, eV, -1.0).abs() @ R64.abs()
+                if not bool(((r2 - ref2).abs() <= 2 * c * S2.expand(ref2.shape) + 1e-300).all()):
+                    _fail("ciq-twice", where, "value", "sqrt_inv_matmul twice off by %.3g (override class)" % float((r2 - ref2).abs().max()))
+        else:
+            ref = (L64 @ Sinv @ R64).expand(res.shape)
+            S = L64.abs() @ Sinv.abs() @ R64.abs()
+            if not bool(((res - ref).abs() <= c * S.expand(ref.shape) + 1e-300).all()):
+                _fail("ciq-root", where, "value", "L A^{-1/2} R off by %.3g (override class)" % float((res - ref).abs().max()))
+            Kinv = _fpow(ew, eV, -1.0)
+            refq = ((L64 @ Kinv) * L64).sum(-1).expand(invq.shape)
+            Sq = ((L64.abs() @ Kinv.abs()) * L64.abs()).sum(-1)
+            if not bool(((invq - refq).abs() <= 2 * c * Sq.expand(refq.shape) + 1e-300).all()):
+                _fail("ciq-invquad", where, "value", "diag(L A^{-1} L^T) off by %.3g (override class)" % float((invq - refq).abs().max()))
+        return {"nontrivial": lhs is not None or len(kb) > 0, "labels": _common_labels(case, n, kb, labels)}
+
+    # quadrature classes
+    a1 = _analyse(calls[0], Kdt, ew, u, dtn, where, lhs is not None)
+    labels += a1["labels"] + ["precond:%s" % a1["precond"]]
+    solves, weights, nss, _ = (x.double() for x in calls[0]["out"])
+    Q = a1["Q"]
+    want_q = case.get("settings", {}).get("num_contour_quadrature", 15)
+    if Q != want_q:
+        _fail("ciq-shape", where, "shape", "%d quadrature nodes used, settings.num_contour_quadrature = %d" % (Q, want_q))
+    rnd = TOL["ALGEBRA"] * (n + Q) * u
+    comb = (solves * weights).sum(0)  # (*ob, n, p [+ o])
+    mag = (solves * weights).abs().sum(0)
+    eta = a1["eta"].unsqueeze(-1)
+    if lhs is None:
+        # algebra: the returned value is the weighted sum of the recorded solves
+        if not bool(((res - comb).abs() <= rnd * mag + 1e-300).all()):
+            _fail("ciq-algebra", where, "value", "result differs from sum_q w_q solves_q by %.3g" % float((res - comb).abs().max()))
+        _cmp_cols("ciq-root", where, res, root_ref, Rn * eta + rnd * root_ref.norm(dim=-2), "A^{-1/2} R")
+        if second is not None:
+            a2 = _analyse(calls[1], Kdt, ew, u, dtn, where, False)
+            r2 = shaped(second, tuple(first.shape), "A^{-1/2} A^{-1/2} R")
+            r2 = r2.unsqueeze(-1) if vector else r2
+            ref2 = (_fpow(ew, eV, -1.0) @ R64).expand(r2.shape)
+            tol2 = res.norm(dim=-2) * a2["eta"].unsqueeze(-1) + (Rn * eta + rnd * root_ref.norm(dim=-2)) / lam_min.expand(ob).sqrt().unsqueeze(-1) + rnd * ref2.norm(dim=-2)
+            _cmp_cols("ciq-twice", where, r2, ref2, tol2, "sqrt_inv_matmul applied twice vs A^{-1} R")
+            relt = (tol2 / (ref2.norm(dim=-2) + 1e-300))[Rn.expand(tol2.shape) > 0]
+            labels.append("twice_bound:" + ("weak" if relt.numel() and float(relt.max()) > 1e-2 else "strong"))
+    else:
+        o = lhs.shape[-2]
+        Lb = L64.expand(ob + (o, n))
+        exp_res = Lb @ comb[..., :p]
+        if not bool(((res - exp_res).abs() <= rnd * (Lb.abs() @ mag[..., :p]) + 1e-300).all()):
+            _fail("ciq-algebra", where, "value", "result differs from lhs @ sum_q w_q solves_q by %.3g" % float((res - exp_res).abs().max()))
+        lns = nss[..., p:]  # (*ob, n, o): unshifted solves of the lhs^T columns
+        if bool(torch.isfinite(lns).all()):
+            exp_q = -(lns.mT * Lb).sum(-1)
+            if not bool(((invq - exp_q).abs() <= rnd * (lns.mT.abs() * Lb.abs()).sum(-1) + 1e-300).all()):
+                _fail("ciq-algebra", where, "value", "second output differs from -(no_shift_solves^T * lhs).sum(-1) by %.3g" % float((invq - exp_q).abs().max()))
+        # L A^{-1/2} R, entry (o, p): |L_o . e_p| <= ||L_o|| ||e_p||
+        Ln = Lb.norm(dim=-1)  # (*ob, o)
+        ref = Lb @ root_ref
+        tol = Ln.unsqueeze(-1) * (Rn * eta + rnd * root_ref.norm(dim=-2)).unsqueeze(-2) + rnd * (Lb.abs() @ root_ref.abs())
+        if not bool(torch.isfinite(res).all()):
+            _fail("ciq-finite", where, "nan", "L A^{-1/2} R is not finite")
+        if bool(((res - ref).abs() > tol).any()):
+            _fail("ciq-root", where, "value", "L A^{-1/2} R off by %.3g > tolerance %.3g" % (float((res - ref).abs().max()), float(tol.max())))
+        Kinv = _fpow(ew, eV, -1.0)
+        refq = ((Lb @ Kinv) * Lb).sum(-1)
+        tolq = Ln * Ln * a1["eta0"].unsqueeze(-1) + rnd * refq.abs()
+        if not bool(torch.isfinite(invq).all()):
+            _fail("ciq-finite", where, "nan", "diag(L A^{-1} L^T) is not finite (n=%d, %s)" % (n, dtn))
+        if bool(((invq - refq).abs() > tolq).any()):
+            i = int(torch.argmax(((invq - refq).abs() / tolq).reshape(-1)))
+            _fail("ciq-invquad", where, "value", "second output %.6g, diag(L A^{-1} L^T) = %.6g, tolerance %.3g" % (
+                float(invq.reshape(-1)[i]), float(refq.reshape(-1)[i]), float(tolq.reshape(-1)[i])))
+    weak = float((a1["eta"] * lam_min.expand(ob).sqrt()).max()) > 1e-2
+    labels.append("root_bound:" + ("weak" if weak else "strong"))
+    return {"nontrivial": True, "labels": _common_labels(case, n, kb, labels)}
+
+
+def _check_sample(case):
+    from linear_operator.operators import DenseLinearOperator
+
+    dtn = case["dt"]
+    dt, u = DT[dtn], U[dtn]
+    Kdt = _dense_K(case)
+    n, kb, num = Kdt.shape[-1], tuple(Kdt.shape[:-2]), case["num"]
+    where = "zero_mean_mvn_samples[ciq]"
+    cell = dict(case.get("settings", {}))
+    cell["ciq_samples"] = True
+    with state.apply_settings(cell), _spy(randn=True) as rec:
+        try:
+            smp = DenseLinearOperator(Kdt).zero_mean_mvn_samples(num)
+        except Exception as e:
+            _fail("ciq-run", where, "exc:" + X.describe(e), "zero_mean_mvn_samples raised %r" % (e,))
+    calls = _top(rec)
+    draws = [z for z in rec["randn"] if tuple(z.shape) == kb + (n, num)]
+    if len(calls) != 1 or not draws:
+        _fail("ciq-algebra", where, "value", "ciq_samples(True): %d quadrature calls, %d normal draws of shape %s" % (len(calls), len(draws), kb + (n, num)))
+    if not torch.is_tensor(smp) or tuple(smp.shape) != (num,) + kb + (n,) or smp.dtype != dt:
+        _fail("ciq-shape", where, "shape", "samples have shape %s / dtype %s, expected %s / %s" % (tuple(smp.shape), smp.dtype, (num,) + kb + (n,), dt))
+    Z = draws[0].double().permute(-1, *range(len(kb) + 1)).unsqueeze(-1)  # (num, *kb, n, 1)
+    ent = calls[0]
+    if tuple(ent["rhs_in"].shape) != tuple(Z.shape) or not torch.equal(ent["rhs_in"].double(), Z):
+        _fail("ciq-algebra", where, "value", "the quadrature was not applied to the recorded normal draws")
+    ew, eV = _eig(Kdt.double())
+    info = _analyse(ent, Kdt, ew, u, dtn, where, False)
+    solves, weights = ent["out"][0].double(), ent["out"][1].double()
+    rnd = TOL["ALGEBRA"] * (n + info["Q"]) * u
+    comb = (solves * weights).sum(0)
+    if not bool(((smp.double().unsqueeze(-1) - comb).abs() <= rnd * (solves * weights).abs().sum(0) + 1e-300).all()):
+        _fail("ciq-algebra", where, "value", "samples differ from sum_q w_q K solves_q")
+    ref = _fpow(ew, eV, 0.5) @ Z
+    _cmp_cols("ciq-root", where, smp.double().unsqueeze(-1), ref, Z.norm(dim=-2) * info["eta"].unsqueeze(-1) + rnd * ref.norm(dim=-2), "samples vs K^{1/2} z")
+    labels = _common_labels(case, n, kb, info["labels"] + ["num:%d" % num, "kappa:%g" % case["spec"]["kappa"]])
+    return {"nontrivial": True, "labels": labels}
+
+
+def check(case):
+    kind = case["kind"]
+    fn = {"minres": _check_minres, "ciq": _check_ciq, "sqrtinv": _check_sqrtinv, "sample": _check_sample}.get(kind)
+    if fn is None:
+        raise HarnessError("unknown case kind %r" % (kind,))
+    info = fn(case)
+    info["key"] = case
+    info["sample"] = {k: (v if k not in ("rhs", "lhs") else {"shape": list(L.shape_of(v))} if v is not None else None) for k, v in case.items()}
+    return info
+
+
+def gaps(labels):
+    need = ["kind:minres", "kind:ciq", "kind:sqrtinv", "kind:sample", "dtype:f32", "dtype:f64", "shifts:none", "shifts:scalar",
+            "pre:diag", "pre:spd", "value:-1.0", "stop:converged", "stop:cap", "iters:>=20", "zero_col:True", "rhs:vector",
+            "cls:dense", "cls:addeddiag", "cls:diag", "cls:identity", "lhs:True", "twice:True", "inverse:True", "inverse:False",
+            "offset:True", "est:accurate", "n:1", "n:21-40"]
+    return sorted("never generated: " + k for k in need if not labels.get(k))
+
+
+def coverage_extra():
+    return {"tolerance_constants": TOL, "open_triggers_avoided_by_generator": sorted(_open_triggers())}
